@@ -42,7 +42,7 @@ LifeTimes(rows) == IF Early(rows) THEN <<0, 1>> ELSE RAdd(XRat(rows), <<1, 1>>)
 LifeCycles(rows) == IF Early(rows) THEN <<NUntil(rows), 1>> ELSE RMul(RAdd(XRat(rows), <<1, 1>>), <<NRun2(rows), 1>>)
 (* D: literal accumulation: first pass once, then the second pass again and again until the sum reaches one *)
 RECURSIVE Repeat(_, _, _)
-Repeat(sum, d2, r) == IF sum >= One \/ r > 100000 THEN r ELSE Repeat(sum + d2, d2, r + 1)
+Repeat(sum, d2, r) == IF sum >= One \/ r > 200 THEN r ELSE Repeat(sum + d2, d2, r + 1)
 LiteralRepetitions(rows) == Repeat(SumRun(rows, 1), SumRun(rows, 2), 0)     \* number of COMPLETE second passes needed
 
 (* ---- load safety factors (fkm_load_distribution.py).  beta*1000 from the table; P_L in {25 (=2.5 %), 500 (=50 %)};
